@@ -1,7 +1,7 @@
 (** Extraction of the C18 specification and model (ExtrOcamlBasic only; Z stays the extracted datatype). *)
-Require Import H4.RepackSpec H4.RepackModel.
+Require Import H4.gen.Gen_Repack H4.RepackSpec H4.RepackModel.
 Require Extraction.
 Require ExtrOcamlBasic.
 Extraction "../extract/gen/repack_model.ml"
   parse_comp parse_chunk parse_number print_comp print_chunk build options_consistent names_ok decisions_ok repack
-  decide expect_comp expect_chunk meets content_of str_eqb get_info step options_init.
+  decide expect_comp expect_chunk meets content_of str_eqb get_info step options_init strips strip_walk sm_sizes one_piece copy_sds_start copy_sds_edge strip_mined zprod.
